@@ -87,7 +87,9 @@ prop("C01", "exploration",
      "name, receiver restarts; every arrival in the final directory is compared with the versions the harness created and with the receive log; "
      "non-trivial = some file needs > 1 part AND (a fault, a retransmission or a restart occurred)",
      [dict(pkg="stagex", test="TestC01Stage", world="W1r", quick=1600, thorough=48000, per_proc=100, shrink_runs=200,
-           required_classes=["fault-1", "staged-overwrite", "restart", "wrong-announced-hash", "corrupt-complete-copy"])],
+           required_classes=["fault-1", "staged-overwrite", "restart", "wrong-announced-hash", "corrupt-complete-copy"]),
+      dict(pkg="stagex", test="TestC01HeldThenNewVersion", world="W1r", quick=400, thorough=12000, per_proc=100, shrink_runs=150,
+           required_classes=["held-copy-with-newer-companion"])],
      STAGE_ASSUME + ["corruptions are single-byte flips/overwrites, not md5 collisions; a staged copy is only overwritten while it is a partial (no receiver can detect a change made after validation)"])
 
 prop("C04", "exploration",
